@@ -32,3 +32,15 @@ META = {
         "technique": "Coq proof (inductive invariants of a small-step concurrent machine, all thread populations and schedules) + lock-step correspondence against the instrumented real mailbox under a controlled scheduler",
     },
 }
+
+# the mailbox-ordering part of C02 (per-kind FIFO in push order, system-before-user, kill overtakes at most one)
+PROPERTIES["C02"] = {
+    "components": ["mailbox"],
+    "coq_files": ["Properties/C02_mailbox.v"],
+    "rule": "mailbox part: the C01 lock-step traces (monitors fifo-user / fifo-system evaluate per-kind FIFO in push order on the real mailbox)",
+    "modelled_not_verified": ["mailbox part: M1, M3, M4 as for C01"],
+}
+META["C02"] = {
+    "text": "mailbox part: for every thread population and schedule of the micro-step mailbox model, messages of one kind are handled exactly in push order, a user message is popped only after the system queue was observed empty in the same iteration, and after a system message is pushed at most ONE user message is popped before it (the exact overtaking bound, with a witness schedule).",
+    "design_ref": "DESIGN.md section 4 C02", "note": "as C01", "technique": "Coq proof over the C01 micro-step model + the C01 lock-step correspondence",
+}
